@@ -345,16 +345,16 @@ func genSendOp(r *Rng) string {
 			parts = append(parts, fmt.Sprintf("%s:%d", hexs(k), r.Pick(0, 1, 2, 3, 9, 10, 99, 100, 255, r.Intn(256))))
 		}
 		sort.Strings(parts) // op text canonical; the Go map forgets the order anyway
-		ms := r.Pick(0, 0, 1, 9, 10, 16384, 1<<31-1, -1, -1<<31, r.Intn(1<<30))
-		rq := r.Pick(0, 1, 250, 255, 256, -1, r.Intn(100000))
+		ms := r.Pick(0, 0, 1, 9, 10, 16384, 1<<31-1, 1<<24, 31337, 99, 100, -1, -1<<31, r.Intn(1<<30))
+		rq := r.Pick(0, 1, 250, 250, 255, 256, 9, 10, 1<<31-1, -1, r.Intn(100000))
 		ip := r.Pick(0, 0, 4, 16, r.Range(0, 20))
-		eid := r.Pick(0, 0, 0, 0, 0, 0, 1, 2, 3, 255)
+		eid := r.Pick(0, 0, 0, 0, 0, 0, 0, 0, 0, 0, 0, 0, 1, 2, 3, 255)
 		return fmt.Sprintf("send k=exths eid=%d m=%s v=%s ip=%s ms=%d rq=%d", eid, joinOrDash(parts), genHex(r, r.Pick(0, 1, 9, 10, 11, 30, r.Range(0, 120))), genHex(r, ip), ms, rq)
 	case 18, 19:
 		t := r.Pick(0, 1, 2, 3, -1, 1<<31, r.Intn(1000))
 		ts := r.Pick(0, 0, 1, 16384, 16385, 1<<24, -1, r.Intn(1<<30))
 		n := r.Pick(0, 0, 1, 100, 16383, 16384, r.Range(0, 16384), r.Range(0, 64))
-		eid := r.Pick(1, 1, 1, 1, 1, 1, 0, 2, 7)
+		eid := r.Pick(1, 1, 1, 1, 1, 1, 1, 1, 1, 1, 1, 1, 0, 2, 7)
 		return fmt.Sprintf("send k=extmd eid=%d t=%d piece=%d ts=%d d=%s", eid, t, edge(), ts, genHex(r, n))
 	default:
 		a := 6 * r.Pick(0, 1, 2, 50, 100, r.Range(0, 100))
@@ -362,7 +362,7 @@ func genSendOp(r *Rng) string {
 		if r.Chance(20) {
 			a += r.Range(1, 5)
 		}
-		eid := r.Pick(2, 2, 2, 2, 2, 2, 0, 1, 200)
+		eid := r.Pick(2, 2, 2, 2, 2, 2, 2, 2, 2, 2, 2, 2, 0, 1, 200)
 		return fmt.Sprintf("send k=extpex eid=%d a=%s d=%s", eid, genHex(r, a), genHex(r, d))
 	}
 }
@@ -460,7 +460,7 @@ func genCodec(r *Rng, n int, tier string) []Case {
 					ops = append(ops, genSendOp(r))
 				}
 			}
-			max := r.Pick(1<<20, 1<<20, 1<<20, 16393, 16392, 16384, 4096, 1000, 100, 17, 12, 4, 0)
+			max := r.Pick(1<<20, 1<<20, 1<<20, 1<<20, 1<<20, 1<<20, 1<<20, 1<<16, 16393, 16393, 16392, 16384, 4096, 1000, 100, 17, 12, 4, 0)
 			ops = append(ops, fmt.Sprintf("read max=%d frag=%s", max, genFrags(r)))
 			if r.Chance(30) {
 				ops = append(ops, fmt.Sprintf("read max=%d frag=%s", 1<<20, genFrags(r)))
